@@ -85,7 +85,7 @@ pub fn run(rep: &mut Report, thorough: bool) {
     crate::util::install_quiet_panic_hook();
     rep.rule = "targets mapping 0..12 synthetic ELF images like a loader would (build id in PT_NOTE / only in the section table / absent -> XOR fold / all-zero; with/without SONAME; with/without section table; deleted on disk; mapped out of an archive at a non-zero file offset; file names with spaces, UTF-8, .so.N.M tails; the same file twice) plus non-ELF file mappings, and 0..3 caller mappings that contain / partially overlap / are disjoint from target groups with empty or 20-byte identifiers. Oracle: groups from the checker's own /proc/<pid>/maps parse; ids and SONAMEs from the independent ELF reader applied to the image bytes the harness wrote, to the real libraries' files and to the vDSO read from /proc/<pid>/mem. distinct = hash(file specs, user mappings); non-trivial = Ok dump with >= 1 synthetic module judged".into();
     let mut rng = Rng::new(rep.seed.wrapping_mul(808_081));
-    let ntargets = if thorough { 150 } else { 14 };
+    let ntargets = if thorough { 600 } else { 60 };
     for ti in 0..ntargets {
         let mut b = Builder::new();
         b.spec.dir = crate::target::new_dir("c08");
@@ -95,6 +95,11 @@ pub fn run(rep: &mut Report, thorough: bool) {
         for k in 0..nfiles {
             let mut spec = ElfSpec::random(&mut rng);
             spec.bits64 = true;
+            // an image linked at a non-zero base (classic non-PIE executable, prelinked library):
+            // p_vaddr != p_offset for every segment
+            if rng.chance(1, 4) {
+                spec.vaddr_bias = *rng.pick(&[0x40_0000u64, 0x1000, 0x10_0000_0000]);
+            }
             let name = match rng.below(6) {
                 0 => format!("lib syn {k}.so"),
                 1 => format!("libsyn{k}.so.{}.{}.{}", rng.below(9), rng.below(20), rng.below(5)),
@@ -158,7 +163,7 @@ pub fn run(rep: &mut Report, thorough: bool) {
             let _g = dump::DUMP_LOCK.lock().unwrap_or_else(|e| e.into_inner());
             dump::dump(&o)
         };
-        let case = json!({"files": files.iter().map(|f| json!({"path": f.path, "deleted": f.deleted, "pad": f.pad, "phdr_note": f.spec.phdr_note.is_some(), "section_note": f.spec.section_note.is_some(), "soname": f.spec.soname, "sections": f.spec.section_table})).collect::<Vec<_>>(), "user_mappings": o.user_mappings.iter().map(|u| format!("{:#x}+{:#x}", u.start, u.size)).collect::<Vec<_>>()});
+        let case = json!({"files": files.iter().map(|f| json!({"path": f.path, "deleted": f.deleted, "pad": f.pad, "vaddr_bias": f.spec.vaddr_bias, "phdr_note": f.spec.phdr_note.is_some(), "section_note": f.spec.section_note.is_some(), "soname": f.spec.soname, "sections": f.spec.section_table})).collect::<Vec<_>>(), "user_mappings": o.user_mappings.iter().map(|u| format!("{:#x}+{:#x}", u.start, u.size)).collect::<Vec<_>>()});
         match out {
             Outcome::Ok(img) => {
                 let im = image::decode(&img);
